@@ -9,6 +9,9 @@ draws random values (`r_bits`, `r_divl`), for every value of them.  `IsBits x`: 
 import MpycV.Lemmas.BitsTo
 import MpycV.Lemmas.BitsUnit
 import MpycV.Lemmas.BitsGcp2
+import MpycV.Lemmas.BitsRing
+import Mathlib.Algebra.CharP.Two
+import Mathlib.Data.ZMod.Defs
 
 namespace MpycV.C30
 open MpycV.Bits
@@ -134,5 +137,44 @@ theorem gcp2_spec (L : Nat) (a b : Int) (l : Nat) (ra : List Int) (rda : Int) (r
 
 example : (2 : Nat) ≤ 16 ∧ (2 : Int) ^ 2 ∣ 12 ∧ (2 : Int) ^ 2 ∣ 40 ∧ ¬ ((2 : Int) ^ 3 ∣ 12 ∧ (2 : Int) ^ 3 ∣ 40) := by
   decide
+
+/-! ### add_bits over secure FIELD types (every commutative ring, in particular characteristic 2) -/
+
+/-- `add_bits` on bits of ANY secure number type: the entries are the elements 0 and 1 of a commutative ring `R` (a prime
+field, a binary field GF(2^k), …), given here as the images of integer bits.  The carry network, written with `c + c`
+as in the repository since fix a36002e, returns the n low bits of the integer sum, for every length n. -/
+theorem addBits_any_ring {R : Type} [CommRing R] (x y : List Int) (hx : IsBits x) (hy : IsBits y)
+    (hlen : x.length = y.length) :
+    BitsRing.addBits (0 : R) (x.map (Int.cast : Int → R)) (y.map (Int.cast : Int → R)) =
+      (bitsOf (fromBits x + fromBits y) x.length).map (Int.cast : Int → R) :=
+  BitsRing.addBits_ring x y hx hy hlen
+
+/-- the ring-polymorphic network is the integer model above when `R = Int` -/
+theorem addBits_ring_int (x y : List Int) : BitsRing.addBits (0 : Int) x y = addBits x y := BitsRing.addBits_int x y
+
+/-- the constant by which a carry is "doubled" in the final loop `x_i + y_i - k*c_i + c_{i-1}` must be `1 + 1`: for the
+one-bit addition 1 + 1 the network returns the sum bit 0 exactly when `k = 1 + 1`.  In mpyc the int `2` used as an
+operand of a GF(2^k) element denotes the polynomial x, not `1 + 1 = 0`: the formula `c*2` was wrong there. -/
+theorem addBits_doubling_constant {R : Type} [CommRing R] (k : R) :
+    BitsRing.sumBitsWith (fun c => k * c) (0 : R) [(1, 1)] [1] = [0] ↔ k = 1 + 1 := by
+  simp only [BitsRing.sumBitsWith, mul_one, add_zero, List.cons.injEq, and_true]
+  constructor
+  · intro h; exact (sub_eq_zero.mp h).symm
+  · intro h; rw [h]; ring
+
+/-- in characteristic 2 the doubled carry vanishes, so a sum bit is `x_i + y_i + c_{i-1}` (xor) -/
+theorem addBits_char2_sum_bit {R : Type} [CommRing R] [CharP R 2] (a b c cin : R) :
+    a + b - (c + c) + cin = a + b + cin := by
+  rw [CharTwo.add_self_eq_zero, sub_zero]
+
+/-- non-vacuity, in a ring of characteristic 2: 3 + 1 = 4 on 3-bit vectors over `ZMod 2` -/
+example : BitsRing.addBits (0 : ZMod 2) (([1, 1, 0] : List Int).map Int.cast) (([1, 0, 0] : List Int).map Int.cast) =
+    (([0, 0, 1] : List Int).map (Int.cast : Int → ZMod 2)) := by
+  have hx : IsBits [1, 1, 0] := by intro b hb; simp at hb; omega
+  have hy : IsBits [1, 0, 0] := by intro b hb; simp at hb; omega
+  have h := addBits_any_ring (R := ZMod 2) [1, 1, 0] [1, 0, 0] hx hy rfl
+  have hb : bitsOf (fromBits [1, 1, 0] + fromBits [1, 0, 0]) ([1, 1, 0] : List Int).length = [0, 0, 1] := by decide
+  rw [hb] at h
+  exact h
 
 end MpycV.C30
